@@ -502,6 +502,14 @@ func (tr *Translator) call(c *ECall) tv {
 			tr.fail("has() on non-map")
 		}
 		return tv{f.mapHas(tr.state(), mt, m.t, k.t), tyBool}
+	case "allocated":
+		// the reference denotes an object that exists in the current (or old) state
+		v := arg(0)
+		t := v.t
+		if t.Sort == SSlice {
+			t = SPtr(t)
+		}
+		return tv{Le(t, tr.stVar("alloc", SInt)), tyBool}
 	case "fresh":
 		v := arg(0)
 		t := v.t
@@ -509,6 +517,10 @@ func (tr *Translator) call(c *ECall) tv {
 			t = SPtr(t)
 		}
 		return tv{Lt(tr.allocOld, t), tyBool}
+	case "aserr":
+		// the *Error that errors.As finds in e's chain (nil when there is none)
+		et := types.NewPointer(f.p.pkg.Types.Scope().Lookup("Error").Type())
+		return tv{unwrapTerm(f.enc, f.p, arg(0).t, et), et}
 	case "ptrlike":
 		return tv{App(SBool, "ptrlike", App(SInt, "tag", arg(0).t)), tyBool}
 	case "ptrval":
